@@ -1025,7 +1025,7 @@ fn main() {
     }
 
     let (n_cases, max_len) = match args.tier.as_str() {
-        "thorough" => (240_000usize, 9usize),
+        "thorough" => (480_000usize, 9usize),
         _ => (12_000usize, 8usize),
     };
     let mut rng = Rng::new(args.seed);
